@@ -84,6 +84,16 @@ def decode_carried(res, rec, rng):
             res.violation(f'c01-carrier-raises-{core.exc_name(e)}', f'from_kd_buf raised {e!r} on a record handed in as '
                           f'{name} ({rec.hex()})', {'record': rec})
             continue
+        if name == 'bytearray':
+            # ... and handed over under the parameter's documented name (functools.partial(from_kd_buf, kd_buf=...),
+            # executor.submit(from_kd_buf, kd_buf=...))
+            try:
+                if kevent.from_kd_buf(kd_buf=rec) != ev:
+                    res.violation('c01-field-keyword-call', f'from_kd_buf(kd_buf=record) differs from from_kd_buf(record) '
+                                  f'({rec.hex()})', {'record': rec})
+            except Exception as e:
+                res.violation(f'c01-carrier-raises-{core.exc_name(e)}', f'from_kd_buf(kd_buf=record) - the documented parameter '
+                              f'name - raised {e!r} ({rec.hex()})', {'record': rec})
         bad = monitors.check_event_against_record(rec, ev)
         if bad:
             res.violation(bad[0] + '-carrier', f'{bad[1]} (record handed in as {name}; {rec.hex()})', {'record': rec})
@@ -121,6 +131,7 @@ def locality(res, base, base_ev, bit):
 def contract_workload(res, ctx):
     """Contract attached to the real function while the container parser reads generated v2 files."""
     from pykdebugparser.kd_buf_parser import KdBufParser
+    from vlib import gen as _gen
     log = monitors.ContractLog()
     undo = monitors.attach_from_kd_buf_contract(log)
     try:
@@ -145,7 +156,6 @@ def contract_workload(res, ctx):
                     res.violation('c01-via-container', f'record {k} read through a v2 file decodes differently from the '
                                   f'reference ({recs[k].hex() if k < len(recs) else "-"})', {'file': data})
                 # the same records through a v3 file
-                from vlib import gen as _gen
                 f3 = wire.V3Spec(chunks=[recs[:len(recs) // 2], recs[len(recs) // 2:]]).build()
                 got3 = [wire.event_tuple(e) for e in KdBufParser({}, {}).parse(io.BytesIO(f3)) if hasattr(e, 'debugid')]
                 if got3 != [wire.ref_tuple(r) for r in recs]:
